@@ -313,7 +313,7 @@ class Model:
         for n in self.nodes:
             k = n["kind"]
             nid = n.get("id", 0)
-            if k in ("source", "ticker", "c1", "c2", "c3", "sample", "accum", "timer0", "timer1", "timer1v", "suml", "sumb"):
+            if k in ("source", "ticker", "c1", "c2", "c3", "sample", "samplemid", "accum", "timer0", "timer1", "timer1v", "suml", "sumb"):
                 if self.fault_hit(nid, "start"):
                     self.failed = (nid, "start", t)
                     return
@@ -455,12 +455,17 @@ class Model:
                     if vals:
                         p = self.ports[name]
                         p.value, p.valid, p.lmt = vals[-1], True, t
-            elif k in ("c1", "c2", "c3", "sample"):
+            elif k in ("c1", "c2", "c3", "sample", "samplemid"):
                 args = n["args"]
                 views = [self.view(a, t) for a in args]
                 if k == "sample":
-                    active = [True, False]
+                    # compile-time passive second input; a wiring-time mark on it is redundant, one on the trigger is not
+                    active = [not args[0].startswith("~"), False]
                     required = [True, False]
+                    op = 0
+                elif k == "samplemid":
+                    active = [not args[0].startswith("~"), False, not args[2].startswith("~")]
+                    required = [True, True, False]
                     op = 0
                 else:
                     active = [not a.startswith("~") for a in args]
